@@ -189,6 +189,7 @@ def closerKind (kvs : List (String × String)) : CloserKind :=
 /-- bookkeeping the verdicts need about the REAL run so far -/
 structure RealBook where
   c03 : SpecC03.Book := { sleep := 0, half := 0, req := 0 }
+  ep : SpecC16.Epoch := {}          -- the C16 monitor on the hystrix closer's gate, fed from what the REAL circuit did
   openBefore : Bool := false
   lastNotif : Option Bool := none
   conc : Int := 0
@@ -197,6 +198,23 @@ structure RealBook where
 def joinVerdicts (l : List (String × Option String)) : String :=
   let bad := l.filterMap fun (p, v) => v.map fun m => p ++ ":" ++ m
   if bad.isEmpty then "-" else "!" ++ "|".intercalate bad
+
+/-- the gate bookkeeping after the notifications of one operation: Opened and Closed both restart the sleep -/
+def epAfterEmits (e : SpecC16.Epoch) (emits : List Emit) : SpecC16.Epoch :=
+  emits.foldl (fun e em => match em with | .opened t => e.next (.start t) .ok | .closed t => e.next (.start t) .ok | _ => e) e
+
+/-- was the hystrix closer's gate consulted by this call, and what did it answer?  It is consulted by a call with a
+    run function on a circuit that reads open, not forced open, not disabled; it refused iff the call was short-circuited -/
+def gateObservation (ck : CloserKind) (cfg : LiveCfg) (openBefore : Bool) (op : ExecOp) (ro : ExecObs) : Option (Int × Bool) :=
+  if ck == CloserKind.hystrix && openBefore && !cfg.forceOpen && !cfg.disabled && op.run.isSome then
+    ro.readings.head?.map fun start => (start, !((runEvents ro.emits).any fun e => e.1 == Kind.shortCircuit))
+  else none
+
+def gateVerdict (e : SpecC16.Epoch) (g : Option (Int × Bool)) : Option String :=
+  g.bind fun (t, b) => (e.verdict (.check t) (.bool b)).map fun m => "half-open gate: " ++ m
+
+def epAfterExec (e : SpecC16.Epoch) (g : Option (Int × Bool)) (emits : List Emit) : SpecC16.Epoch :=
+  epAfterEmits (match g with | some (t, b) => e.next (.check t) (.bool b) | none => e) emits
 
 partial def runCircuitOps (fresh : OState × CState × SpecC03.Book) (ck : CloserKind) (c : Circ OState CState) (cfgSpec : LiveCfg) (rb : RealBook)
     (lines : List (String × String)) (acc : Array String) : Array String :=
@@ -239,15 +257,15 @@ partial def runCircuitOps (fresh : OState × CState × SpecC03.Book) (ck : Close
               let cfgNew := if ro.runCalls != 0 then (mid.getD cfgSpec) else cfgSpec
               (joinVerdicts [("C09", verdictC09 cfgNew rb.lastNotif ro.emits ro.openAfter ro.fanOk),
                 ("C12", (verdictC12 ro.emits ro.readings).orElse fun _ => verdictC12o ro.emits ro.readings),
-                ("C03", if ck == CloserKind.hystrix then SpecC03.verdictExec rb.c03 cfgNew rb.openBefore ro else none)],
-               { c03 := rb.c03.afterExec rb.openBefore ro, openBefore := ro.openAfter, lastNotif := ((notifs ro.emits).getLast?).orElse fun _ => rb.lastNotif, conc := ro.conc, concFb := ro.concFb })
+                ("C03", (gateVerdict rb.ep (gateObservation ck cfgSpec rb.openBefore op ro)).orElse fun _ => if ck == CloserKind.hystrix then SpecC03.verdictExec rb.c03 cfgNew rb.openBefore ro else none)],
+               { c03 := rb.c03.afterExec rb.openBefore ro, ep := epAfterExec rb.ep (gateObservation ck cfgSpec rb.openBefore op ro) ro.emits, openBefore := ro.openAfter, lastNotif := ((notifs ro.emits).getLast?).orElse fun _ => rb.lastNotif, conc := ro.conc, concFb := ro.concFb })
             else
             (joinVerdicts [("C01", verdictC01 cfgSpec adm pv op ro), ("C05", verdictC05 cfgSpec adm pv op ro),
               ("C06", verdictC06 cfgSpec op ro), ("C02", verdictC02 cfgSpec op ro), ("C07", verdictC07 cfgSpec op ro), ("C08", verdictC08 cfgSpec rb.openBefore pv op ro),
               ("C09", verdictC09 cfgSpec rb.lastNotif ro.emits ro.openAfter ro.fanOk),
               ("C10", verdictC10 cfgSpec rb.openBefore rb.conc rb.concFb op ro), ("C12", (verdictC12 ro.emits ro.readings).orElse fun _ => verdictC12o ro.emits ro.readings),
-              ("C03", if ck == CloserKind.hystrix then SpecC03.verdictExec rb.c03 cfgSpec rb.openBefore ro else none)],
-             { c03 := rb.c03.afterExec rb.openBefore ro, openBefore := ro.openAfter, lastNotif := ((notifs ro.emits).getLast?).orElse fun _ => rb.lastNotif, conc := ro.conc, concFb := ro.concFb })
+              ("C03", (gateVerdict rb.ep (gateObservation ck cfgSpec rb.openBefore op ro)).orElse fun _ => if ck == CloserKind.hystrix then SpecC03.verdictExec rb.c03 cfgSpec rb.openBefore ro else none)],
+             { c03 := rb.c03.afterExec rb.openBefore ro, ep := epAfterExec rb.ep (gateObservation ck cfgSpec rb.openBefore op ro) ro.emits, openBefore := ro.openAfter, lastNotif := ((notifs ro.emits).getLast?).orElse fun _ => rb.lastNotif, conc := ro.conc, concFb := ro.concFb })
         -- the settings the specification tracks follow the REAL call: they change iff its run function was invoked
         let realRan : Bool := match parseObs op real with | some ro => ro.runCalls != 0 | none => mo.runCalls != 0
         let cfgSpec' := match mid with | some m => if realRan then { m with iei := cfgSpec.iei } else cfgSpec | none => cfgSpec
@@ -270,7 +288,7 @@ partial def runCircuitOps (fresh : OState × CState × SpecC03.Book) (ck : Close
           let c08 : Option String := if cfgSpec.forcedClosed ∧ (notifs ev).contains true then some "ForcedClosed circuit was opened by OpenCircuit" else none
           (joinVerdicts [("C09", (verdictC09 cfgSpec rb.lastNotif ev realOpen fan).orElse fun _ => noop.orElse fun _ => effect),
                          ("C03", if !isOpenOp then effect else none), ("C08", c08), ("C12", verdictC12 ev rd)],
-           { rb with c03 := ev.foldl SpecC03.Book.onEmit rb.c03, openBefore := realOpen, lastNotif := ((notifs ev).getLast?).orElse fun _ => rb.lastNotif })
+           { rb with c03 := ev.foldl SpecC03.Book.onEmit rb.c03, ep := epAfterEmits rb.ep ev, openBefore := realOpen, lastNotif := ((notifs ev).getLast?).orElse fun _ => rb.lastNotif })
         | _, _ => ("-", { rb with openBefore := realOpen })
       runCircuitOps fresh ck c' cfgSpec rb' rest (acc.push (m ++ "\t" ++ spec))
     | some "setcfg" =>
@@ -287,21 +305,22 @@ partial def runCircuitOps (fresh : OState × CState × SpecC03.Book) (ck : Close
       -- SetConfigNotThreadSafe with ANOTHER TimeKeeper (clock B = clock A + 1000 s): the factories are asked again, so
       -- the opener and the closer start afresh; the open/closed flag and the gauges stay
       let c' := { c with clock := c.clock + 1000000000000, opener := fresh.1, closer := fresh.2.1 }
-      runCircuitOps fresh ck c' cfgSpec { rb with c03 := fresh.2.2, openBefore := realOpen } rest (acc.push (s!"open={fmtBool (isOpenEff c')}" ++ "\t-"))
+      runCircuitOps fresh ck c' cfgSpec { rb with c03 := fresh.2.2, ep := { sleep := fresh.2.2.sleep, allow := fresh.2.2.half }, openBefore := realOpen } rest (acc.push (s!"open={fmtBool (isOpenEff c')}" ++ "\t-"))
     | some "tick" =>
       let c' := { c with clock := c.clock + (toks.getD 1 "0").toInt?.getD 0 }
       runCircuitOps fresh ck c' cfgSpec { rb with openBefore := realOpen } rest (acc.push (s!"open={fmtBool (isOpenEff c')}" ++ "\t-"))
     | some "fire" =>
       let k := (toks.getD 1 "0").toNat?.getD 0
       let c' := { c with closer := match c.closer with | .hystrix h => .hystrix { h with tc := h.tc.fire k } | o => o }
-      runCircuitOps fresh ck c' cfgSpec { rb with openBefore := realOpen } rest (acc.push (s!"open={fmtBool (isOpenEff c')}" ++ "\t-"))
+      runCircuitOps fresh ck c' cfgSpec { rb with ep := rb.ep.next (.fire k) .ok, openBefore := realOpen } rest (acc.push (s!"open={fmtBool (isOpenEff c')}" ++ "\t-"))
     | some "closercfg" =>
       let c' := { c with closer := match c.closer with
         | .hystrix h => .hystrix { h with tc := { h.tc with sleep := kvInt kvs "sleep" h.tc.sleep, allow := kvInt kvs "half" h.tc.allow }, required := kvInt kvs "req" h.required }
         | o => o }
       let b3 := rb.c03
       let b3 := { b3 with sleep := kvInt kvs "sleep" b3.sleep, half := kvInt kvs "half" b3.half, req := kvInt kvs "req" b3.req, cfgChanged := true }
-      runCircuitOps fresh ck c' cfgSpec { rb with c03 := b3, openBefore := realOpen } rest (acc.push (s!"open={fmtBool (isOpenEff c')}" ++ "\t-"))
+      let ep' := (rb.ep.next (.setSleep b3.sleep) .ok).next (.setAllow b3.half) .ok
+      runCircuitOps fresh ck c' cfgSpec { rb with c03 := b3, ep := ep', openBefore := realOpen } rest (acc.push (s!"open={fmtBool (isOpenEff c')}" ++ "\t-"))
     | some "openercfg" =>
       let c' := { c with opener := match c.opener with
         | .hystrix h => .hystrix { h with pct := kvInt kvs "pct" h.pct, vol := kvInt kvs "vol" h.vol }
@@ -313,6 +332,6 @@ partial def runCircuitOps (fresh : OState × CState × SpecC03.Book) (ck : Close
 def suiteCircuit (kvs : List (String × String)) (lines : List (String × String)) : List String :=
   let c := initCirc kvs
   let b3 : SpecC03.Book := { sleep := kvInt kvs "c_sleep" 5000000000, half := kvInt kvs "c_half" 1, req := kvInt kvs "c_req" 1 }
-  (runCircuitOps (c.opener, c.closer, b3) (closerKind kvs) c c.cfg { c03 := b3 } lines #[]).toList
+  (runCircuitOps (c.opener, c.closer, b3) (closerKind kvs) c c.cfg { c03 := b3, ep := { sleep := b3.sleep, allow := b3.half } } lines #[]).toList
 
 end CM
